@@ -4,7 +4,7 @@
  * the numeric locale before and after (the process runs in C.utf8).  Plus add_compound_data on pairs of parsed formulas. */
 #include "common.h"
 #include <locale.h>
-static int locid(void) { const char *l = setlocale(LC_NUMERIC, NULL); return !l ? -1 : !strcmp(l, "C") ? 0 : !strcmp(l, "C.utf8") || !strcmp(l, "C.UTF-8") ? 1 : 2; }
+static int locid(void) { const char *l = setlocale(LC_NUMERIC, NULL); const char *all = setlocale(LC_ALL, NULL); if (all && strcmp(all, "C.utf8") && strcmp(all, "C.UTF-8") && l && strcmp(l, "C")) return 3;   /* some other category was changed */ return !l ? -1 : !strcmp(l, "C") ? 0 : !strcmp(l, "C.utf8") || !strcmp(l, "C.UTF-8") ? 1 : 2; }
 static void j_cd(struct compoundData *c) {
   if (!c) { fputs("\"ok\":0", OUT); return; }
   fprintf(OUT, "\"ok\":1,\"el\":["); for (int i = 0; i < c->nElements; i++) fprintf(OUT, "%s%d", i ? "," : "", c->Elements[i]);
@@ -15,7 +15,7 @@ static void j_cd(struct compoundData *c) {
 static int in_group = 0, group_first = 1;
 static void one(const char *s, int len, const char *grp) {           /* len bytes, may not contain NUL */
   static char bigbuf[1 << 15]; char small[400]; char *buf = len < 399 ? small : bigbuf; memcpy(buf, s, len); buf[len] = 0;
-  if (locid() != 1) setlocale(LC_NUMERIC, "C.utf8");      /* every parse starts from the non-C locale */
+  if (locid() != 1) setlocale(LC_ALL, "C.utf8");          /* every parse starts from the non-C locale, all categories */
   int l0 = locid(); xrl_error *e = NULL; struct compoundData *c = CompoundParser(buf, &e); int l1 = locid();
   if (in_group && !group_first) fputc(',', OUT);
   group_first = 0;
@@ -100,6 +100,17 @@ int cmd_c07(int argc, char **argv) {
     }
     for (int n = 10; n <= 1500; n = n * 3 / 2 + 1) { int o = 0; for (int i = 0; i < n; i++) o += sprintf(big + o, "%s", SYMS[(i * 7) % 90]); one(big, o, "long");
       o = 0; big[o++] = '('; for (int i = 0; i < n; i++) o += sprintf(big + o, "%s%d", SYMS[(i * 11) % 90], 1 + i % 9); o += sprintf(big + o, ")3"); one(big, o, "long"); }
+    /* long numeric tokens: leading zeros, long fractions, long integers - after a symbol and after a group (lengths 5 .. 300) */
+    for (int n = 5; n <= 300; n = n * 3 / 2 + 1) {
+      int o = 0; o += sprintf(big + o, "Ca("); o += sprintf(big + o, "OH)"); for (int i = 0; i < n - 1; i++) big[o++] = '0'; big[o++] = '6'; one(big, o, "longnum");
+      o = 0; o += sprintf(big + o, "(SiO2)"); for (int i = 0; i < n - 1; i++) big[o++] = '0'; big[o++] = '3'; o += sprintf(big + o, "(Al2O3)2"); one(big, o, "longnum");
+      o = 0; o += sprintf(big + o, "Fe"); for (int i = 0; i < n - 1; i++) big[o++] = '0'; big[o++] = '2'; o += sprintf(big + o, "O3"); one(big, o, "longnum");
+      o = 0; o += sprintf(big + o, "(CH2)1."); for (int i = 0; i < n - 1; i++) big[o++] = '0'; big[o++] = '5'; o += sprintf(big + o, "Cl"); one(big, o, "longnum");
+      o = 0; o += sprintf(big + o, "H2O0."); for (int i = 0; i < n; i++) big[o++] = (char)('1' + i % 9); one(big, o, "longnum");
+      o = 0; o += sprintf(big + o, "(NaCl)0."); for (int i = 0; i < n; i++) big[o++] = (char)('1' + (i * 7) % 9); o += sprintf(big + o, "K"); one(big, o, "longnum");
+      if (n <= 40) { o = 0; o += sprintf(big + o, "C"); for (int i = 0; i < n; i++) big[o++] = (char)('1' + i % 9); o += sprintf(big + o, "H4"); one(big, o, "longnum");
+        o = 0; o += sprintf(big + o, "(CO)"); for (int i = 0; i < n; i++) big[o++] = (char)('1' + i % 9); o += sprintf(big + o, "H4"); one(big, o, "longnum"); }
+    }
   } else if (!strcmp(argv[0], "small")) {
     static const char AL[] = "HOCal()20."; int maxlen = atoi(argv[1]); int part = argc > 2 ? atoi(argv[2]) : 0, np = argc > 3 ? atoi(argv[3]) : 1; long idx = 0;
     for (int len = 0; len <= maxlen; len++) { long tot = 1; for (int i = 0; i < len; i++) tot *= 10;
